@@ -37,8 +37,14 @@ pub fn inflator_interleavings(run: &Run, property: &str) {
             continue;
         }
         let bound = if thorough { tb } else { qb };
-        let out = match Command::new(&bin).args(["run", name, bound]).output() {
-            Ok(o) => o,
+        let secs: u64 = std::env::var("MCHECK_LOOMLAB_DEADLINE").ok().and_then(|x| x.parse().ok()).unwrap_or(if thorough { 1800 } else { 300 });
+        let out = match output_within(&bin, &["run", name, bound], secs) {
+            Ok(Some(o)) => o,
+            Ok(None) => {
+                run.cap_hit(&format!("loom lab scenario {} (bound {}): not finished within {} s; not explored", name, bound, secs));
+                run.outcome("loom:inflator:deadline-reached");
+                continue;
+            }
             Err(e) => run.machinery_failure(&format!("loom lab: cannot run {}: {}", name, e)),
         };
         let stdout = String::from_utf8_lossy(&out.stdout).to_string();
@@ -106,6 +112,39 @@ pub fn inflator_interleavings(run: &Run, property: &str) {
     );
 }
 
+/// Runs a lab binary under a wall-clock deadline (the explorer of a tree that shares more between its threads than the unchanged
+/// one may need hours: that is a cap, reported as such, never a verdict and never a check that does not come back).
+fn output_within(bin: &str, args: &[&str], secs: u64) -> Result<Option<std::process::Output>, std::io::Error> {
+    use std::io::Read;
+    let mut child = Command::new(bin).args(args).stdout(std::process::Stdio::piped()).stderr(std::process::Stdio::piped()).spawn()?;
+    let (mut so, mut se) = (child.stdout.take().unwrap(), child.stderr.take().unwrap());
+    let t1 = std::thread::spawn(move || {
+        let mut v = Vec::new();
+        let _ = so.read_to_end(&mut v);
+        v
+    });
+    let t2 = std::thread::spawn(move || {
+        let mut v = Vec::new();
+        let _ = se.read_to_end(&mut v);
+        v
+    });
+    let start = std::time::Instant::now();
+    let status = loop {
+        match child.try_wait()? {
+            Some(st) => break Some(st),
+            None if start.elapsed().as_secs() >= secs => {
+                let _ = child.kill();
+                let _ = child.wait();
+                break None;
+            }
+            None => std::thread::sleep(std::time::Duration::from_millis(20)),
+        }
+    };
+    let (stdout, stderr) = (t1.join().unwrap_or_default(), t2.join().unwrap_or_default());
+    Ok(status.map(|status| std::process::Output { status, stdout, stderr }))
+}
+
+
 /// Driver of the second loom lab (`/verif/stfloom`): melstf's own source - the library target is the repository's `src/lib.rs` -
 /// compiled against loom-backed stand-ins for rayon, parking_lot, once_cell and dashmap.  Every rayon terminal operation in
 /// `apply_tx_batch` is a parallel site; for each scenario (a batch of two or three transactions), each site in turn runs its
@@ -126,9 +165,29 @@ pub fn stf_interleavings(run: &Run, property: &str, scenarios: &[&str]) {
     let mut rows = Vec::new();
     let (mut total, mut models) = (0u64, 0u64);
     for name in scenarios {
-        let out = match Command::new(&bin).args(["run", name, bound]).output() {
-            Ok(o) => o,
-            Err(e) => run.machinery_failure(&format!("stfloom: cannot run {}: {}", name, e)),
+        let secs: u64 = std::env::var("MCHECK_STFLOOM_DEADLINE").ok().and_then(|x| x.parse().ok()).unwrap_or(if run.thorough() { 900 } else { 150 });
+        let mut bound = bound;
+        let mut out = None;
+        for b in [bound, "2"] {
+            match output_within(&bin, &["run", name, b], secs) {
+                Ok(Some(o)) => {
+                    bound = b;
+                    out = Some(o);
+                    break;
+                }
+                Ok(None) => {
+                    run.cap_hit(&format!("stfloom scenario {} (preemption bound {}): not finished within {} s - on the unchanged tree it takes seconds; this tree shares more between the explored threads", name, b, secs));
+                    run.outcome("loom:apply_tx_batch:deadline-reached");
+                }
+                Err(e) => run.machinery_failure(&format!("stfloom: cannot run {}: {}", name, e)),
+            }
+        }
+        let out = match out {
+            Some(o) => o,
+            None => {
+                rows.push(json!({"scenario": name, "result": "deadline reached with unbounded preemptions and with preemption bound 2: not explored"}));
+                continue;
+            }
         };
         let stdout = String::from_utf8_lossy(&out.stdout).to_string();
         let stderr = String::from_utf8_lossy(&out.stderr).to_string();
